@@ -411,6 +411,11 @@ def _random_history(r, length):
                          "clone", "clonetree", "clonelist", "clear", "destroy", "locate", "pos", "wild", "swap", "relink", "nparse", "switch", "pmerge"])
         if not al or kind == "new" or (len(al) < 4 and r.random() < 0.5):
             nm = r.choice(names)
+            if r.random() < 0.08:
+                key = r.choice(["6162", "00", "ff00", "6162"])
+                lines.append("n newkey %s %s" % (key, r.choice(["-", "x"])))
+                m.new("#" + key)
+                continue
             if r.random() < 0.15:
                 nm = r.choice(["L", "M"]) * r.choice([19, 20, 21, 22, 200, 212, 213, 217]) + nm.strip("-.")
                 lines.append("n %s %s %s" % (r.choice(["new", "newsmall"]), nm, r.choice(["-", "x"])))
@@ -552,6 +557,12 @@ def _stream_names(tier):
                 for op in ("n clone 0", "n clone 0 tree", "n clone 1 list", "n clone 1"):
                     out.append(("name:%d/%s/%s/%s" % (ln, how, val, op[2:].replace(" ", "_")),
                                 pre + [op, "n locate 3 1 %s" % nm, "n locate 3 1 %s" % nm2, "n clone 3 tree", "n end"]))
+    # nodes identified by a binary key instead of a text name (mpt_identifier_set(id, 0, len) + data)
+    for j, (k1, k2) in enumerate((("6162", "00ff"), ("00", "0000"), ("ff01020304050607", "6162"), ("61", "61"))):
+        pre = ["n begin", "n newkey %s v" % k1, "n newkey %s -" % k2, "n new a x", "n newkey %s -" % k1, "n insert 0 0 1", "n insert 1 0 2"]
+        for op in ("n clone 0", "n clone 0 tree", "n clone 1 list", "n clone 1"):
+            out.append(("name:key:%d/%s" % (j, op[2:].replace(" ", "_")),
+                        pre + [op, "n add 0 0 3 byname", "n clone 0 list", "n end"]))
     return out
 
 
@@ -734,6 +745,12 @@ class _PARSE:
             for cycles in (0, 1, 2, 4):
                 lines.append("n cxxreread %s %d" % (f.encode().hex() if f else "-", cycles))
             out.append(("reread:%d" % i, lines + ["n end"]))
+        # C++ nodes in a sibling list without parent: deleting one must unlink it from its neighbours
+        lines = ["n begin"]
+        for k in range(1, 6):
+            for i in range(k):
+                lines.append("n cxxlist %d %d" % (k, i))
+        out.append(("cxxlist", lines + ["n end"]))
         return out
 
     @staticmethod
